@@ -8,7 +8,11 @@ first k results (k <= 6).  Three measurements of (results, pulls, lambda applica
   model   Yaql.Model.Stream (the cost model the causal_* / cost_tight_* theorems are about).
 Oracle (failing input, real code alone + transcription): no result within the watchdog, wrong
 results, or pulls > ref + 1 / applications > ref + 1.
-Mismatch: the model's cost is undercut / its results differ although the oracle holds."""
+Mismatch: the model's cost is undercut / its results differ although the oracle holds.
+
+Secondary lazy collection arguments: the same three measurements for `<list>.op(<pipeline over $src>, ..)` with op in
+join (second collection), zip, zipLongest, concat, +, insertMany, replaceMany, defaultIfEmpty, selectMany (lazy selector
+result): the instrumented source feeds the SECOND argument, the receiver is a constant (possibly empty / an iterator)."""
 import itertools
 import json
 import signal
@@ -35,12 +39,18 @@ REQUIRED_THEOREMS = ['Yaql.Props.C14.' + n for n in (
     'cost_tight_takeWhile cost_tight_indexWhere cost_tight_indexOf cost_tight_first cost_tight_any cost_tight_all '
     'cost_tight_zip cost_tight_accumulate cost_tight_accumulate_seed cost_tight_slice linSlice_pulls cost_tight_append '
     'cost_tight_member cost_tight_selectMany cost_tight_join linJoin_pulls cost_tight_insert cost_tight_replace '
-    'cost_delete_le keptSt_pulls').split()] + ['Yaql.Props.C14Gen.' + n for n in (
+    'cost_delete_le keptSt_pulls '
+    'causal_joinInner causal_zipAt causal_zipLongestAt causal_splice causal_selectManyInner causal_secondary '
+    'runOn_of_start_stop cost_tight_joinInner linJoinInner_cost joinInner_empty_outer joinInner_single_pass '
+    'cost_tight_zipAt linZipAt_pulls cost_tight_splice splice_untouched spliceReplaceMany_none spliceReplaceMany_spec '
+    'spliceInsertMany_parts cost_tight_selectManyInner selectManyInner_empty').split()] + ['Yaql.Props.C14Gen.' + n for n in (
         'streaming_ops_lazy streaming_ops_all_found streaming_ops_use_source').split()]
 TRUSTED = ['instrumentation: pulls are counted in __next__ of the host iterator handed to evaluate(data=...), lambda '
            'applications by a registered tick() evaluated first in every lambda (`tick() and (<lambda>)`)',
            'harness/gens/streamfacts.py (AST classification of how each streaming payload uses its source parameter)']
 ASSUMPTIONS = ['endless sources are arithmetic-periodic integer sequences (or dicts {a: int}); k <= 6; <= 4 stages',
+               'secondary-argument cases: receiver = list literal of <= 3 integers (optionally behind a probe-free where), '
+               'feeding pipeline <= 3 stages, <= 1 stage behind the operator; finite sources count the elements handed out',
                'a case is only run when the model produces the k results within the first 150 source elements']
 
 N_PREFIX = 150
@@ -65,15 +75,20 @@ def source_value(base, delta, as_dict, i):
 
 
 class Source:
-    """endless host iterator with a pull counter"""
-    def __init__(self, base, delta, as_dict, frozen=False):
-        self.base, self.delta, self.as_dict, self.frozen = base, delta, as_dict, frozen
+    """endless (or, with `n`, finite) host iterator with a pull counter; `pulls` counts the elements
+    handed out, `probes` the requests made after the end"""
+    def __init__(self, base, delta, as_dict, frozen=False, n=None):
+        self.base, self.delta, self.as_dict, self.frozen, self.n = base, delta, as_dict, frozen, n
         self.pulls = 0
+        self.probes = 0
 
     def __iter__(self):
         return self
 
     def __next__(self):
+        if self.n is not None and self.pulls >= self.n:
+            self.probes += 1
+            raise StopIteration()
         v = source_value(self.base, self.delta, self.as_dict, self.pulls)
         self.pulls += 1
         if self.as_dict and self.frozen:
@@ -292,6 +307,159 @@ def gen_case(rng, focus):
     return dict(base=base, delta=delta, dict=as_dict, k=k, ops=ops, terminal=terminal)
 
 
+# ------------------------------------------------------------------ secondary lazy collection arguments
+
+SEC_KINDS = ['join', 'zip', 'zipLongest', 'concat', 'plus', 'insertMany', 'replaceMany', 'defaultIfEmpty', 'selectMany']
+SEC_PIPE_OPS = ['select', 'where', 'skip', 'take', 'takeWhile', 'skipWhile', 'distinct', 'enumerate', 'memorize', 'attr',
+                'selectMany', 'accumulate', 'slice', 'append', 'delete']
+SEC_POST_OPS = ['take', 'skip', 'memorize', 'enumerate', 'first', 'any', 'slice', 'distinct', 'indexOf']
+
+
+def eff_prim(sec):
+    """the elements of the receiver: a list literal, optionally behind a probe-free filter (which makes it an iterator)"""
+    return tuple(v for v in sec['prim'] if sec.get('gt') is None or v > sec['gt'])
+
+
+def gen_sec_case(rng, kind):
+    as_dict = rng.random() < 0.15
+    base = [rng.choice([0, 1, 2, 3, 4, 5, 7]) for _ in range(rng.choice([1, 2, 3, 3, 4, 5]))]
+    if rng.random() < 0.15:
+        base = []
+    delta = rng.choice([0, 1, 1, 2, 3, len(base) or 1])
+    shape = 'dict' if as_dict else 'int'
+    ops = []
+    for _ in range(rng.choice([0, 1, 1, 1, 2, 2, 3])):
+        n = rng.choice(SEC_PIPE_OPS)
+        if n == 'attr' and shape != 'dict':
+            n = 'select'
+        a, shape = gen_stage(rng, n, shape)
+        ops.append(a)
+    prim = tuple(rng.choice([0, 1, 2, 3, 5, 8]) for _ in range(rng.choice([0, 1, 1, 2, 2, 2, 3, 3])))
+    sec = dict(kind=kind, prim=prim, gt=None)
+    r = rng.random()
+    if r < 0.08:
+        sec['gt'] = 100                                   # filtered to empty
+    elif r < 0.3:
+        sec['gt'] = rng.choice([0, 1, 2, 4])
+    out = 'other'
+    if kind == 'join':
+        if shape == 'int':
+            sec['f2'] = rng.choice([['gt'], ['eq'], ['const', True], ['const', True], ['on1', ['eq', ['mod', ARG, 2], 0]],
+                                    ['on2', ['gt', ARG, 1]], ['on2', ['eq', ['mod', ARG, 3], 0]], ['const', False]])
+            sec['g2'] = rng.choice([['pair'], ['plus'], ['fst'], ['snd'], ['max']])
+            out = 'pair' if sec['g2'][0] == 'pair' else 'int'
+        else:
+            sec['f2'] = rng.choice([['const', True], ['const', True], ['on1', ['gt', ARG, 1]], ['const', False]])
+            sec['g2'] = rng.choice([['pair'], ['fst'], ['snd']])
+            out = 'int' if sec['g2'][0] == 'fst' else shape if sec['g2'][0] == 'snd' else 'other'
+    elif kind in ('zip', 'zipLongest', 'concat'):
+        sec['before'] = (small_ints(rng, 0, 4),) if rng.random() < 0.25 else ()
+        sec['after'] = (small_ints(rng, 0, 4),) if rng.random() < 0.35 else ()
+        if kind == 'zipLongest' and rng.random() < 0.5:
+            sec['v'] = rng.choice([None, 0, 100])
+        out = shape if kind == 'concat' and shape == 'int' else 'other'
+    elif kind == 'plus':
+        out = shape if shape == 'int' else 'other'
+    elif kind == 'insertMany':
+        sec['n'] = rng.choice([-1, 0, 0, 1, 2, 5])
+        out = shape if shape == 'int' else 'other'
+    elif kind == 'replaceMany':
+        sec['n'] = rng.choice([-1, 0, 0, 1, 2, 5])
+        sec['m'] = rng.choice([None, None, 0, 1, 2, -1])
+        out = shape if shape == 'int' else 'other'
+    elif kind in ('defaultIfEmpty', 'selectMany'):
+        if kind == 'selectMany':
+            sec['prim'] = prim[:1]
+        out = shape if shape == 'int' else 'other'
+    post = []
+    if rng.random() < 0.35:
+        n = rng.choice(SEC_POST_OPS)
+        a, out = gen_stage(rng, n, out)
+        post.append(a)
+    terminal = bool(post) and post[-1]['op'] in TERMINAL_OPS
+    k = 1 if terminal else rng.randrange(0, 7)
+    ln = rng.choice([None, None, None, 0, 1, 2, 3, 5])
+    return dict(base=base, delta=delta, dict=as_dict, k=k, ops=ops, terminal=terminal, sec=sec, post=post, len=ln)
+
+
+def prim_text(sec):
+    t = seqref.lit(tuple(sec['prim']))
+    return t if sec.get('gt') is None else '%s.where($ > %d)' % (t, sec['gt'])
+
+
+def sec_text(sec, s):
+    """yaql text of the operator with the pipeline text `s` in its secondary collection argument"""
+    p, kind, lit = prim_text(sec), sec['kind'], seqref.lit
+    if kind == 'join':
+        return '%s.join(%s, %s, %s)' % (p, s, seqref.rl2w(sec['f2']), seqref.rl2w(sec['g2']))
+    if kind in ('zip', 'zipLongest', 'concat'):
+        ps = [lit(b) for b in sec['before']] + [s] + [lit(b) for b in sec['after']]
+        if 'v' in sec:
+            ps.append('default => ' + lit(sec['v']))
+        return '%s.%s(%s)' % (p, kind, ', '.join(ps))
+    if kind == 'plus':
+        return '(%s + %s)' % (p, s)
+    if kind == 'insertMany':
+        return '%s.insertMany(%s, %s)' % (p, lit(sec['n']), s)
+    if kind == 'replaceMany':
+        return '%s.replaceMany(%s)' % (p, seqref.args(lit(sec['n']), s, lit(sec['m']) if sec.get('m') is not None else None))
+    if kind == 'defaultIfEmpty':
+        return '%s.defaultIfEmpty(%s)' % (p, s)
+    if kind == 'selectMany':
+        return '%s.selectMany(%s)' % (p, seqref.WRAP % s)
+    raise ValueError(kind)
+
+
+def sec_json(sec):
+    enc = values.enc
+    prim = eff_prim(sec)
+    j = dict(kind='concat' if sec['kind'] == 'plus' else sec['kind'], prim=[enc(v) for v in prim])
+    if sec['kind'] == 'join':
+        j['f2'], j['g2'] = seqref.lam2_json(sec['f2'], enc), seqref.lam2_json(sec['g2'], enc)
+    if sec['kind'] in ('zip', 'zipLongest', 'concat', 'plus'):
+        j['before'] = [[enc(v) for v in b] for b in (prim,) + tuple(sec.get('before', ()))]
+        j['after'] = [[enc(v) for v in b] for b in sec.get('after', ())]
+    for k in ('n', 'm'):
+        if sec.get(k) is not None:
+            j[k] = sec[k]
+    if 'v' in sec:
+        j['v'] = enc(sec['v'])
+    return j
+
+
+def sec_ref(sec, s, count):
+    """the documented meaning of the operator over the lazy secondary collection `s` (plain Python)"""
+    prim = eff_prim(sec)
+    recv = prim if sec.get('gt') is None else iter(prim)       # a filtered receiver is a one-shot iterator
+    kind, R = sec['kind'], seqref.REF
+    if kind == 'join':
+        return R.join(recv, dict(vs=s, f2=sec['f2'], g2=sec['g2']))
+    if kind == 'zip':
+        return R.zip(recv, dict(vss=tuple(sec['before']) + (s,) + tuple(sec['after'])))
+    if kind == 'zipLongest':
+        a = dict(vss=tuple(sec['before']) + (s,) + tuple(sec['after']))
+        if 'v' in sec:
+            a['v'] = sec['v']
+        return R.zipLongest(recv, a)
+    if kind == 'concat':
+        return R.concat(recv, dict(vss=tuple(sec['before']) + (s,) + tuple(sec['after'])))
+    if kind == 'plus':
+        return itertools.chain(iter(recv), s)
+    if kind == 'insertMany':
+        return R.insertMany(recv, dict(n=sec['n'], vs=s))
+    if kind == 'replaceMany':
+        return R.replaceMany(recv, dict(n=sec['n'], vs=s, m=sec.get('m')))
+    if kind == 'defaultIfEmpty':
+        return R.defaultIfEmpty(recv, dict(vs=s))
+    if kind == 'selectMany':
+        def gen():
+            for _ in recv:
+                count[0] += 1          # the selector is applied to the element; its result is gone through lazily
+                yield from s
+        return gen()
+    raise ValueError(kind)
+
+
 # ------------------------------------------------------------------ the three measurements
 
 _STATE = {}
@@ -317,7 +485,12 @@ def setup_engine():
 def case_text(case):
     seqref.WRAP = 'tick() and (%s)'
     try:
-        t = seqref.render(case['ops'])
+        if case.get('sec'):
+            t = sec_text(case['sec'], seqref.render(case['ops'], root='$src'))
+            for a in case['post']:
+                t = seqref.render_op(t, a)
+        else:
+            t = seqref.render(case['ops'])
     finally:
         seqref.WRAP = '%s'
     return t if case['terminal'] else '%s.take(%d)' % (t, case['k'])
@@ -326,14 +499,18 @@ def case_text(case):
 def run_real_once(case, timeout=4):
     eng, ctx, counter = setup_engine()
     text = case_text(case)
-    srcobj = Source(case['base'], case['delta'], case['dict'])
+    srcobj = Source(case['base'], case['delta'], case['dict'], n=case.get('len'))
     counter[0] = 0
     try:
         st = eng(text)
+        child = ctx.create_child_context()
+        if case.get('sec'):
+            from yaql.language import utils as yutils
+            child['src'] = yutils.convert_input_data(srcobj)      # what evaluate(data=..) does for `$`
         signal.signal(signal.SIGALRM, c13._alarm)
         signal.setitimer(signal.ITIMER_REAL, timeout)
         try:
-            r = st.evaluate(data=srcobj, context=ctx.create_child_context())
+            r = st.evaluate(data=srcobj, context=child) if not case.get('sec') else st.evaluate(context=child)
         finally:
             signal.setitimer(signal.ITIMER_REAL, 0)
         return dict(kind='ok', value=r, pulls=srcobj.pulls, apps=counter[0], text=text)
@@ -351,7 +528,7 @@ def run_real(case, timeout=4):
 
 
 def run_ref(case):
-    srcobj = Source(case['base'], case['delta'], case['dict'], frozen=True)
+    srcobj = Source(case['base'], case['delta'], case['dict'], frozen=True, n=case.get('len'))
     count = [0]
 
     def hook(f):
@@ -361,9 +538,13 @@ def run_ref(case):
         return g
     seqref.HOOK = hook
     try:
-        ops = list(case['ops']) + ([] if case['terminal'] else [{'op': 'take', 'n': case['k']}])
+        last = [] if case['terminal'] else [{'op': 'take', 'n': case['k']}]
         try:
-            r = seqref.run_ref(srcobj, ops)
+            if case.get('sec'):
+                lazy = seqref.run_lazy(srcobj, list(case['ops']))
+                r = seqref.run_ref(sec_ref(case['sec'], seqref.it(lazy), count), list(case['post']) + last)
+            else:
+                r = seqref.run_ref(srcobj, list(case['ops']) + last)
             return dict(kind='ok', value=r, pulls=srcobj.pulls, apps=count[0])
         except OOD:
             return dict(kind='ood')
@@ -374,8 +555,11 @@ def run_ref(case):
 
 
 def model_request(case):
-    return dict(base=case['base'], delta=case['delta'], dict=case['dict'], n=N_PREFIX, k=case['k'],
-                ops=[seqref.op_json(a, values.enc) for a in case['ops']])
+    rq = dict(base=case['base'], delta=case['delta'], dict=case['dict'], n=N_PREFIX, k=case['k'],
+              ops=[seqref.op_json(a, values.enc) for a in case['ops']])
+    if case.get('sec'):
+        rq.update(sec=sec_json(case['sec']), post=[seqref.op_json(a, values.enc) for a in case['post']], len=case.get('len'))
+    return rq
 
 
 def model_summary(m, case):
@@ -405,10 +589,14 @@ def evaluate_case(case, mreply):
     mod = model_summary(mreply, case)
     if mod is None:
         return None, dict(skipped=True)
+    if case.get('len') is not None:         # a finite source: elements handed out (the request that finds the end is not one)
+        mod['pulls'] = min(mod['pulls'], case['len'])
     real = run_real(case)
     ref = run_ref(case)
     info = dict(real=real, ref=ref, model=mod, text=real['text'])
-    where = '%s over source base=%r delta=%d%s' % (real['text'], case['base'], case['delta'], ' (dicts)' if case['dict'] else '')
+    where = '%s over source %sbase=%r delta=%d%s%s' % (
+        real['text'], '$src ' if case.get('sec') else '', case['base'], case['delta'], ' (dicts)' if case['dict'] else '',
+        '' if case.get('len') is None else ' of %d elements' % case['len'])
     if real['kind'] == 'timeout':
         return ('oracle', '%s: no result within the watchdog after %d pulls / %d lambda applications (the %d results need %s pulls)' % (
             where, real['pulls'], real['apps'], case['k'], ref.get('pulls', mod['pulls']))), info
@@ -456,12 +644,23 @@ def brief(r):
 def case_to_json(case):
     j = dict(case)
     j['ops'] = [seqref.op_json(a, values.enc) for a in case['ops']]
+    if case.get('sec'):
+        j['post'] = [seqref.op_json(a, values.enc) for a in case['post']]
+        j['sec'] = dict(case['sec'])          # ints, None, nested lists only
     return j
 
 
 def case_from_json(j):
     c = dict(j)
     c['ops'] = [c13.op_from_json(o) for o in j['ops']]
+    if j.get('sec'):
+        c['post'] = [c13.op_from_json(o) for o in j['post']]
+        sec = dict(j['sec'])
+        sec['prim'] = tuple(sec['prim'])
+        for k in ('before', 'after'):
+            if k in sec:
+                sec[k] = tuple(tuple(b) for b in sec[k])
+        c['sec'] = sec
     return c
 
 
@@ -482,7 +681,36 @@ def fails(case, drv, kind):
     return f if f and f[0] == kind else None
 
 
+def shrink_sec(case, drv, kind):
+    changed = True
+    while changed:
+        changed = False
+        cands = [dict(case, ops=case['ops'][:i] + case['ops'][i + 1:]) for i in range(len(case['ops']) - 1, -1, -1)]
+        if case['post']:
+            cands.append(dict(case, post=[], terminal=False))
+        sec = case['sec']
+        if sec.get('gt') is not None:
+            cands.append(dict(case, sec=dict(sec, gt=None, prim=eff_prim(sec))))
+        cands += [dict(case, sec=dict(sec, prim=sec['prim'][:i] + sec['prim'][i + 1:])) for i in range(len(sec['prim']))]
+        for k in ('before', 'after'):
+            if sec.get(k):
+                cands.append(dict(case, sec=dict(sec, **{k: ()})))
+        if not case['terminal'] and case['k'] > 0:
+            cands.append(dict(case, k=case['k'] - 1))
+        if case.get('len'):
+            cands.append(dict(case, len=case['len'] - 1))
+        if len(case['base']) > 1:
+            cands.append(dict(case, base=case['base'][:-1]))
+        for cand in cands:
+            if fails(cand, drv, kind):
+                case, changed = cand, True
+                break
+    return case
+
+
 def shrink(case, drv, kind):
+    if case.get('sec'):
+        return shrink_sec(case, drv, kind)
     changed = True
     while changed:
         changed = False
@@ -511,7 +739,9 @@ def run(env, res):
     drv = env['driver']
     tier = env['tier']
     rng = common.make_rng(env['seed'], 'C14')
-    res.rule = ('pipelines of <= 4 streaming operators (each of the 27 listed operators is the focus of an equal share) '
+    res.rule = ('secondary lazy collection arguments of join/zip/zipLongest/concat/+/insertMany/replaceMany/defaultIfEmpty/'
+                'selectMany fed by a pipeline over the instrumented source (endless or finite, receiver constant, possibly empty); '
+                'and pipelines of <= 4 streaming operators (each of the 27 listed operators is the focus of an equal share) '
                 'over an instrumented endless arithmetic-periodic source, k in 0..6, lambdas from the Lam family containing '
                 'tick(); distinct = distinct (expression, source); non-trivial = the case was run (model produces the k '
                 'results within %d source elements) and at least one element was pulled' % N_PREFIX)
@@ -522,9 +752,10 @@ def run(env, res):
         per = 150 if tier == 'quick' else 4000
         focuses = STREAM_OPS + TERMINAL_OPS
         cases = [gen_case(rng, f) for f in focuses for _ in range(per)]
+        cases += [gen_sec_case(rng, f) for f in SEC_KINDS for _ in range(per)]
     t0 = time.time()
     replies = ask(drv, cases)
-    hist = dict(skipped=0, exact_pulls=0, exact_apps=0, run=0, real_err=0, by_focus={}, k={}, stages={}, slack_pulls={}, slack_apps={})
+    hist = dict(second_arg={}, skipped=0, exact_pulls=0, exact_apps=0, run=0, real_err=0, by_focus={}, k={}, stages={}, slack_pulls={}, slack_apps={})
     for case, mr in zip(cases, replies):
         f, info = evaluate_case(case, mr)
         text = case_text(case)
@@ -539,8 +770,15 @@ def run(env, res):
         real, mod = info['real'], info['model']
         hist['k'][str(case['k'])] = hist['k'].get(str(case['k']), 0) + 1
         hist['stages'][str(len(case['ops']))] = hist['stages'].get(str(len(case['ops'])), 0) + 1
-        for a in case['ops']:
+        for a in case['ops'] + case.get('post', []):
             hist['by_focus'][a['op']] = hist['by_focus'].get(a['op'], 0) + 1
+        if case.get('sec'):
+            sk = 'second-arg:' + case['sec']['kind']
+            hist['by_focus'][sk] = hist['by_focus'].get(sk, 0) + 1
+            for tag, cond in (('empty-receiver', not eff_prim(case['sec'])), ('finite-source', case.get('len') is not None),
+                              ('iterator-receiver', case['sec'].get('gt') is not None)):
+                if cond:
+                    hist['second_arg'][tag] = hist['second_arg'].get(tag, 0) + 1
         if real['kind'] == 'err':
             hist['real_err'] += 1
         if real['kind'] != 'timeout':
@@ -552,7 +790,10 @@ def run(env, res):
         if f:
             small = shrink(case, drv, f[0])
             g = fails(small, drv, f[0]) or f
-            res.fail(g[0], '.'.join(a['op'] for a in small['ops'])[:60], g[1], case_to_json(small))
+            key = '.'.join(a['op'] for a in small['ops'])
+            if small.get('sec'):
+                key = '.'.join([small['sec']['kind'] + '-second-arg'] + [a['op'] for a in small['ops'] + small['post']])
+            res.fail(g[0], key[:60], g[1], case_to_json(small))
             if len(res.failures) >= 8 or sum('watchdog' in x.what for x in res.failures) >= 2:
                 break
     res.extra['histogram'] = hist
@@ -564,7 +805,9 @@ LEVEL_TEXT = ('Lean 4 theorems about a cost model in which every streaming opera
               'pull, per pulled element, at exhaustion) and every produced element is stamped with the number of source '
               'elements pulled and of lambda applications made: causality for ANY machine and for pipelines of ANY length '
               '(the results produced within n pulls, with their stamps, depend on the first n source elements only - '
-              'causal, causal_pipeline, causal_<op> for the 25 listed operators), explicit cost formulas / bounds per '
+              'causal, causal_pipeline, causal_<op> for the 25 listed operators and for the machines over a SECONDARY lazy '
+              'collection argument: join inner side, zip/zipLongest/concat/+ further collections, insertMany/replaceMany values, '
+              'defaultIfEmpty default, selectMany result), explicit cost formulas / bounds per '
               'operator (cost_tight_*), the cost of a pipeline as the composition of the stage costs (compose_cost, '
               'runPipe_ext) and totality on endless sources with fuel = cost (endless_total). The model is tied to the code '
               'by running generated pipelines on an instrumented endless source with tick() in every lambda against the '
